@@ -871,8 +871,13 @@ func (m MemoryFeatureSource) Read(options ReadOptions, emit Emit, ctx context.Co
 	for i := 0; i < cores; i++ {
 		go feed(i)
 	}
+feed:
 	for _, f := range m {
-		c <- f
+		select {
+		case <-ctx.Done():
+			break feed
+		case c <- f:
+		}
 	}
 	close(c)
 	wg.Wait()
